@@ -1,0 +1,5 @@
+//go:build !verif
+
+package cron
+
+func verifPoint(string, ...any) {}
